@@ -18,7 +18,7 @@ CFG = dict(
              "Go driver harness/C31 (overlay build, tag verif) and its add-only shim exporting handleJoin/handleLeave/handleDataplane"],
     assumptions=["the Processor's handlers run one at a time (they do: a single goroutine loop); the driver calls them synchronously",
                  "output channels never fill up (the driver's are buffered with 4096 slots; the server's have 100 and a reader goroutine)",
-                 "calculation-graph contract Spec.valid: policies/profiles are sent before endpoints that list them and removed only "
+                 "calculation-graph contract Spec.valid (readable: Spec.listed_once = tiers disjoint, no repeat in an ingress list): policies/profiles are sent before endpoints that list them and removed only "
                  "when unused, IP sets likewise w.r.t. policies/profiles, an endpoint lists a policy once, join UIDs are non-zero",
                  "IP set updates carry fewer than MaxMembersPerMessage (82200) members, so no message is split",
                  "proto payloads are not mutated after being handed to the Processor"],
